@@ -20,6 +20,8 @@ class C01(Monitor):
     def sample(self, kind, key, tag):
         w = self.w
         for p in pools_of(w):
+            if p in w.resized:
+                continue  # C01 fixes the size while tasks are in flight; re-assignment is C15's subject
             size = w.cfg_size[p]
             if w.live[p] > size:
                 self.v("live workers exceed pool size", p, w.live[p], size, kind)
@@ -30,6 +32,8 @@ class C01(Monitor):
     def quiet_idle(self):
         w = self.w
         for p in pools_of(w):
+            if p in w.resized:
+                continue
             size = w.cfg_size[p]
             pool = w.pools[p]
             exp = pool.num_running == size
@@ -1180,8 +1184,9 @@ class C14(Monitor):
 
     def quiet_idle(self):
         w = self.w
+        absorbing = w.scen.get("worker") == "absorb" or any((r.opts or {}).get("worker") == "absorb" for r in w.reqs.values())
         for k in self.expected:
-            if k in w.started and k not in w.exited:
+            if k in w.started and k not in w.exited and not absorbing:
                 self.v("stopped task still running at quiet idle", k)
             if k in w.exited and w.cancel_seen[k] < 1 and w.exited[k] == "ret" and False:
                 pass
@@ -1222,7 +1227,10 @@ class C15(Monitor):
         for t, r in w.reqs.items():
             if r.p != p or t in w.group_cancelled:
                 continue
-            made = len(w.created.get(t, ())) + len(w.skipped.get(t, ()))
+            sk = w.skipped.get(t, ())
+            if r.kind == "start":
+                sk = w.skipped.get(w.simple_reqs[r.p].tag, ())
+            made = len(w.created.get(t, ())) + len(sk)
             rem = r.num - made
             if r.kind == "map":
                 rem = min(rem, r.nc - len(live_of(w, t)))
